@@ -968,6 +968,10 @@ async fn run_mpsc_case(case: Rc<Case>) {
                     )),
                 }
             }
+            if i >= 1 && (case.event == "none" || case.event == "droptx") {
+                // later senders stay alive a little longer: an end-of-stream that does not wait for them shows
+                tokio::time::sleep(Duration::from_millis(3 * i as u64)).await;
+            }
             // the watcher owns a clone of the sender: it must go before the sender counts as dropped
             watcher.abort();
             let _ = watcher.await;
@@ -1046,18 +1050,21 @@ async fn run_oneshot_case(case: Rc<Case>) {
     let mut keep = Vec::new();
     let mut handle = None;
     let mut otx = Some(otx);
-    if case.event == "close" {
+    // `at >= 1`: the value is sent first and the close / drop follows at once (no scheduler round in between),
+    // so that it finds the value in the local queue or on its way
+    let late = case.at >= 1 && (case.event == "close" || case.event == "droprx");
+    if case.event == "close" && !late {
         orx.close();
         tr("rclose".into());
         settle().await;
     }
     let mut orx = Some(orx);
-    if case.event == "droprx" {
+    if case.event == "droprx" && !late {
         tr("rdrop".into());
         orx = None;
         settle().await;
     }
-    if case.event == "close" || case.event == "droprx" {
+    if (case.event == "close" || case.event == "droprx") && !late {
         let t = otx.as_ref().unwrap();
         if no_hang(t.closed()).await.is_none() {
             tr("hang closed 0".into());
@@ -1082,6 +1089,16 @@ async fn run_oneshot_case(case: Rc<Case>) {
             Err(e) => tr(format!("send 0 {} res={} isclosed={}", bt.line, if e.is_closed() { "closed" } else { "failed" }, e.is_closed() as u8)),
         }
         tr("txdrop 0".into());
+    }
+    if late {
+        if case.event == "close" {
+            orx.as_mut().unwrap().close();
+            tr("rclose".into());
+        } else {
+            tr("rdrop".into());
+            orx = None;
+        }
+        settle().await;
     }
     let mut complete = false;
     if let Some(r) = orx.take() {
@@ -1513,9 +1530,14 @@ fn c11_sweep() -> Vec<Case> {
     for topo in 0..3usize {
         for event in ["close", "droprx", "droptx", "none"] {
             for len in [3usize, 40] {
-                text.push_str(&format!(
-                    "case sweep-oneshot{topo}-{event}-{len} kind=oneshot event={event} at=0 topo={topo} cfga=10,16,24 cfgb=10,16,24 smax=149 rmax=149 seed=5\nop 0 tag=1 len={len}\nend\n"
-                ));
+                for at in 0..2usize {
+                    if at == 1 && !(event == "close" || event == "droprx") {
+                        continue;
+                    }
+                    text.push_str(&format!(
+                        "case sweep-oneshot{topo}-{event}-{len}-{at} kind=oneshot event={event} at={at} topo={topo} cfga=10,16,24 cfgb=10,16,24 smax=149 rmax=149 seed=5\nop 0 tag=1 len={len}\nend\n"
+                    ));
+                }
             }
         }
     }
